@@ -43,7 +43,9 @@ std::string canon(const MValue &v, ValEq eq = VE_STRICT);
 std::string show(const MValue &v, size_t maxlen = 200);   // for logs
 
 // real <-> model
-MValue snapshot_value(cif_value_tp *v);                   // public getters only; never coerces CHAR to NUMB
+MValue snapshot_value(cif_value_tp *v);
+bool valid_cif_number(const ustr &t);
+extern std::vector<std::string> *g_classify_problems;   // when set, snapshot_value also probes the number classification of unquoted strings (C01)                   // public getters only; never coerces CHAR to NUMB
 // Builds a real value denoting 'spec' through the public API. Returns NULL and sets *rc on failure.
 cif_value_tp *build_value(const MValue &spec, int *rc);
 
